@@ -227,6 +227,17 @@ func c08Profile(ac bool) func(c *sim.RunCtx) {
 			}
 			w.onFindDone = func(op *storeOp, present []bool, invokeAlloc int) {
 				q := qmax(w, op.InvokeSeq)
+				// detections this very call made itself (its refresh copies read the
+				// objects) precede its answer as well: they are not concurrent with it
+				own := false
+				for _, d := range w.e.detections {
+					if d.G == w.s.Cur().ID && d.Seq >= op.InvokeSeq && d.Block.ID > q {
+						q, own = d.Block.ID, true
+					}
+				}
+				if own {
+					c.Count("probe_findmissing_detected_itself", 1)
+				}
 				if q < 0 || cfg.AC {
 					return
 				}
